@@ -53,8 +53,13 @@ func (c *RawHTTPResponder) AddHeader(name string, value string) {
 
 func (c *RawHTTPResponder) SetHeaders(headers http.Header) {
 	for key, values := range headers {
-		for _, value := range values {
-			c.SetHeader(key, value)
+		// Replace the field with all of its values, in order (Set-Cookie, Link, Vary, ... may repeat).
+		for i, value := range values {
+			if i == 0 {
+				c.SetHeader(key, value)
+			} else {
+				c.AddHeader(key, value)
+			}
 		}
 	}
 }
